@@ -1,4 +1,5 @@
 """Check orchestration: per-property pipelines, evidence, known findings, exit codes."""
+import re
 import json, os, time, shutil, subprocess, glob
 from . import run, life, models, scen
 
@@ -176,17 +177,15 @@ def check_c12(tier, seed):
     samples = []
     for o in outs:
         rc, out = run.tlc_trace("FeeTrace.tla", "FeeTrace.cfg", o, wd + "/ft")
-        done = [l for l in out.splitlines() if "FEEDONE" in l]
+        done = run.tagged(out, "FEEDONE")
         if not done:
             raise run.ToolError("FeeTrace did not finish:\n" + out[-2000:])
-        nums = [int(x) for x in done[0].strip("<>").replace('"FEEDONE",', "").split(",")]
+        nums = [int(x) for x in re.findall(r"-?\d+", done[0][1])]
         nlines += nums[0]; k4 += nums[2]
         lines = open(o).read().splitlines()
         samples.append(json.loads(lines[0])); samples.append(json.loads(lines[len(lines) // 3]))
-        for l in out.splitlines():
-            if "FEEVIOL" in l:
-                idx = int(l.split(",")[1])
-                bad.append((o, idx, json.loads(lines[idx - 1])))
+        for idx, text in run.tagged(out, "FEEVIOL"):
+            bad.append((o, idx, json.loads(lines[idx - 1])))
     # lifecycle clauses (failure carries the policy; first HTLC of a fresh payment)
     jobs, sstats = life.build_jobs(pid, tier, seed, wd)
     for name in life.LIFE[pid]["models"]:
@@ -254,16 +253,14 @@ def check_c18(tier, seed):
         with ThreadPoolExecutor(max_workers=8) as ex:
             res = list(ex.map(lambda ko: (ko[1],) + run.tlc_trace("TlvTrace.tla", "TlvTrace.cfg", ko[1], f"{wd}/tt{prof}{ko[0]}"), enumerate(outs)))
         for o, rc, out in res:
-            done = [l for l in out.splitlines() if "TLVDONE" in l]
+            done = run.tagged(out, "TLVDONE")
             if not done:
                 raise run.ToolError("TlvTrace did not finish:\n" + out[-2000:])
             lines = open(o).read().splitlines()
             n += len(lines)
             samples.append(json.loads(lines[len(lines) // 2]))
-            for l in out.splitlines():
-                if "TLVVIOL" in l:
-                    idx = int(l.split(",")[1])
-                    bad.append(json.loads(lines[idx - 1]))
+            for idx, text in run.tagged(out, "TLVVIOL"):
+                bad.append(json.loads(lines[idx - 1]))
     os.makedirs(REPLAYS, exist_ok=True)
     for k, rec in enumerate(bad[:3]):
         p = f"{REPLAYS}/C18_vec{k}.json"
@@ -331,11 +328,9 @@ def check_c20(tier, seed):
         nlines += len(lines)
         if "No error has been found" not in out:
             raise run.ToolError("BlockObs failed:\n" + out[-2000:])
-        for x in out.splitlines():
-            if "BLKVIOL" in x:
-                runno = int(x.split(",")[1])
-                at = next(k for k, ln in enumerate(lines) if '"ev":"reset"' in ln and f'"run":{runno}' in ln) + 2
-                bad.append((o, at, x.strip()))
+        for runno, text in run.tagged(out, "BLKVIOL"):
+            at = next(k for k, ln in enumerate(lines) if '"ev":"reset"' in ln and f'"run":{runno}' in ln.replace(" ", "")) + 2
+            bad.append((o, at, text))
     # conformance verdict: the trace must be a behaviour of BlockWatcher.tla
     with ThreadPoolExecutor(max_workers=12) as ex:
         res = list(ex.map(lambda ko: (ko[1],) + run.tlc_trace("BlockTrace.tla", "BlockTrace.cfg", ko[1], f"{wd}/bt{ko[0]}"), enumerate(outs)))
@@ -416,9 +411,8 @@ def check_c17(tier, seed):
         nlines += sum(1 for _ in open(o))
         if "No error has been found" not in out:
             raise run.ToolError("WireTrace failed:\n" + out[-2000:])
-        for x in out.splitlines():
-            if "WIREVIOL" in x:
-                bad.append((int(x.split(",")[1]), x.strip()))
+        for runno, text in run.tagged(out, "WIREVIOL"):
+            bad.append((runno, text))
     # Engine C: the real binary, chunked stdin, trace logging racing with replies
     from . import e2e
     e2e_stats = e2e.wire_check(seed, tier, wd)
@@ -441,7 +435,37 @@ def check_c17(tier, seed):
     shutil.rmtree(wd, ignore_errors=True)
     return 1 if bad else 0
 
+def check_c19(tier, seed):
+    """C19: Config.tla states what each option assignment must lead to; the real binary is started with each
+    assignment and its observable parameters are compared by ConfigTrace.tla."""
+    from . import e2e
+    t0 = time.time()
+    pid = "C19"
+    wd = f"{VERIF}/work/C19_{tier}"
+    shutil.rmtree(wd, ignore_errors=True); os.makedirs(wd)
+    run.cargo_build()
+    st = e2e.config_check(seed, tier, wd)
+    os.makedirs(REPLAYS, exist_ok=True)
+    for n, (runno, what, rec) in enumerate(st["violations"][:3]):
+        pth = f"{REPLAYS}/C19_{n}.json"
+        json.dump({"property": pid, "kind": "config", "what": what, "record": rec}, open(pth, "w"))
+        print(f"VIOLATION property=C19 replay={pth}")
+    cov = {"evaluations": st["runs"], "distinct_nontrivial": st["started"], "samples": st["samples"],
+           "traces_validated_against_impl": st["runs"], "states": st["runs"], "transitions": st["runs"],
+           "rule": "one start of the real binary per option assignment: every listed boundary value of every integer option alone, "
+                   "swapped/equal/adjacent deltas, flag combinations, seeded random assignments (thorough: the full delta x delta "
+                   "product); non-trivial = assignments the plugin has to run with (its parameters are then read back through the "
+                   "fee failure, the pay RPC for a far and a near expiry, a self-route-hint invoice and the measured MPP timeout)",
+           "exhaustive": False}
+    write_evidence(pid, tier, seed, "model_checking", cov, time.time() - t0, len(st["violations"]),
+                   ["option values reach the plugin as JSON integers in the init call (64-bit signed)", "the fake lightningd of Engine C",
+                    "MPP timeout measured in real time with a tolerance of -0.2 s / +1.2 s"])
+    shutil.rmtree(wd, ignore_errors=True)
+    return 1 if st["violations"] else 0
+
 def check(pid, tier, seed):
+    if pid == "C19":
+        return check_c19(tier, seed)
     if pid == "C17":
         return check_c17(tier, seed)
     if pid == "C20":
